@@ -1413,8 +1413,8 @@ where
         .iter()
         .enumerate()
         .map(|(idx, x)| {
-            let username = demangle_toml_string(x["username"].to_string());
-            let password = demangle_toml_string(x["password"].to_string());
+            let username = client_field(&x["username"]);
+            let password = client_field(&x["password"]);
 
             if username.is_empty() {
                 return Err(serde::de::Error::custom(format!(
@@ -1509,6 +1509,15 @@ where
     };
 
     Ok(Some(rules::RulesEngine::from_config(rules_config)))
+}
+
+/// The value of a credentials field: for a TOML string it is the string the file denotes
+/// (escapes decoded, quotes and surrounding whitespace preserved)
+fn client_field(item: &Item) -> String {
+    match item.as_str() {
+        Some(x) => x.to_string(),
+        None => demangle_toml_string(item.to_string()),
+    }
 }
 
 fn demangle_toml_string(x: String) -> String {
